@@ -2,6 +2,8 @@ import DeltaModel.Proto
 import DeltaModel.Grep
 import DeltaModel.RipGrepJson
 import DeltaModel.GrepRow
+import DeltaModel.GrepHelper
+import DeltaModel.GrepInput
 /-!
 Model driver for C16 (`drv_grep`). Mirrors the ops of /repo/src/verif_hooks/grep.rs.
 
@@ -20,6 +22,12 @@ Model driver for C16 (`drv_grep`). Mirrors the ops of /repo/src/verif_hooks/grep
                                       the stream's rows with the cells of every classic-style hit row (DeltaModel/GrepRow.lean):
                                       `L<n> <paint><xtext>…` (f path, n number, p plain, w/l/c code styles) or `X`; the
                                       `make_output_config` flags are computed from caller and options
+  grep.rows_text <xlabel> <fileplain 0|1> <hhfile 0|1> <hhnum 0|1> <navigate 0|1> <xsepsymbol> <caller> <k> <xopt>*k <otype> <tabw> <nlines> <lines as for grep.emit>
+                                      the visible text of every row of the stream (DeltaModel/GrepHelper.lean: ripgrep-style rows, path
+                                      headers and the function-context header through the regenerated helper calls; classic hit rows
+                                      through GrepRow): `ok <n> | <xtext>|-` (`-`: no line written)
+  grep.line_of_text <tabw> <xraw>     the dispatch of handle_grep_line on a text line free of escape sequences (DeltaModel/GrepInput.lean,
+                                      strip = identity): `H <kind> <xpath> <num|-> <xcode>` or `O`
   grep.fragment <kind> <xpath> <xdigits|-> <xcode>     which theorem fragment covers the record (A numbered / B unnumbered, short extension, no blanks / B2 unnumbered, extension up to 10, blanks / C extension-less / -), model round trip, fmtPlain
   grep.fmt_coloured <kind> <xpath> <xdigits|-> <xcode> model round trip, fmtColoured
   grep.sections <xcode> <n> <a> <b> ...
@@ -228,6 +236,44 @@ def stepGrepJson (fs : List String) : Option String :=
     | _, _, _ => none
   | _ => none
 
+/-- `grep.rows_text`, `grep.line_of_text` (session 4 / T23). -/
+def stepGrepText (fs : List String) : Option String :=
+  match fs with
+  | "grep.rows_text" :: label :: fp :: hf :: hn :: nav :: sep :: caller :: k :: rest =>
+    match bytesOfField label, stringOfField sep, natOfField k with
+    | some label, some sep, some k =>
+      match takeStrings k rest [] with
+      | some (opts, ot :: w :: n :: rest) =>
+        let ot : Option (Option GrepType) := if ot = "-" then some none else (gtOfWord ot).map some
+        match ot, natOfField w, natOfField n with
+        | some ot, some w, some n =>
+          match parseLines n rest [] with
+          | some lines =>
+            let out := GrepRow.outputConfig caller opts
+            let rcfg : GrepRow.Cfg := { navigate := nav = "1", sepSymbol := sep, out := out }
+            let hc : GrepHelper.HCfg := { hunkLabel := label, filePlain := fp = "1", hhFile := hf = "1", hhLineNumber := hn = "1" }
+            match emit { outputType := ot, tabWidth := w, headerAsHunkHeader := out.headerAsHunk } lines with
+            | .ok rows =>
+              let texts := rows.map fun r =>
+                match GrepRow.rowCells rcfg r with
+                | some cells => some (GrepRow.rowText cells)
+                | none => GrepHelper.rowText hc r
+              some (texts.foldl (fun s t => s ++ " | " ++ (match t with | some t => hexOfBytes t | none => "-"))
+                ("ok " ++ toString texts.length))
+            | .error e => some ("PANIC " ++ reprStr e)
+          | none => none
+        | _, _, _ => none
+      | _ => none
+    | _, _, _ => none
+  | ["grep.line_of_text", w, raw] =>
+    match natOfField w, charsOfField raw with
+    | some w, some raw =>
+      match GrepInput.lineOfInput w id (.text raw) with
+      | .hit h => some ("H " ++ kindWord h.kind ++ " " ++ hexChars h.path ++ " " ++ optNat h.num ++ " " ++ hexOfBytes h.code)
+      | .other _ => some "O"
+    | _, _ => none
+  | _ => none
+
 def stepGrep (line : String) : String :=
   match fields line with
   | ["grep.parse", l] =>
@@ -298,6 +344,6 @@ def stepGrep (line : String) : String :=
         | .error e => "PANIC " ++ reprStr e
       | none => "ERR"
     | _, _, _ => "ERR"
-  | fs => (stepGrepJson fs).getD "ERR"
+  | fs => ((stepGrepJson fs).orElse fun _ => stepGrepText fs).getD "ERR"
 
 def main : IO Unit := serve stepGrep
